@@ -2,7 +2,7 @@
    observation, used only by the per-run correspondence (harness/c01.py,
    harness/c02.py).  Definitions only. *)
 From Coq Require Import ZArith List Bool Arith.
-From PF Require Import Gen.Tables Lib.ListX Model.Ragged Model.Mapper Model.MapperSpec Model.Converter.
+From PF Require Import Gen.Tables Lib.ListX Model.Ragged Model.Mapper Model.MapperSpec Model.Converter Model.DatasetInit.
 Import ListNotations.
 Local Open Scope nat_scope.
 
@@ -145,3 +145,21 @@ Definition check_task (target : rawcol) (obs_task : option task_type) (obs_class
 (* the witness of Props/C02.v column_perm_success_transfer_refuted, evaluated against /repo by harness/c02.py *)
 Definition keyless_cols : list (name * rawcol) :=
   [([116%Z], RTok [[]; []]); ([120%Z], RNum [Some (NFin 8); Some (NFin 16)])].
+
+(* Dataset.__init__: accept / reject, and the canonical separator / time-format dictionaries against the ones the
+   real dataset holds (ds.col_to_sep, ds.col_to_time_format) *)
+Definition init_accepts (a : ds_args) : bool := match dataset_init a with Some _ => true | None => false end.
+Definition pat_matches (o : option (pat str)) (v : option str) : bool :=
+  match o, v with
+  | Some (PVal s), Some s' => str_eqb s s'
+  | Some PNone, None => true
+  | _, _ => false
+  end.
+Definition check_config (a : ds_args) (obs_sep obs_fmt : list (name * option str)) : bool :=
+  match dataset_init a with
+  | None => false
+  | Some c =>
+      forallb (fun e => pat_matches (pat_lookup (fst e) (c_sep c)) (snd e)) obs_sep
+      && forallb (fun e => pat_matches (pat_lookup (fst e) (c_fmt c)) (snd e)) obs_fmt
+      && (length (c_sep c) =? length obs_sep) && (length (c_fmt c) =? length obs_fmt)
+  end.
